@@ -118,6 +118,36 @@ T = {
     "explicit port whose value is zero (parsed or set with evhttp_uri_set_port)"),
  "C28-strip-brackets-ipvfuture": ("C28", "/tmp/adv_C28", "demo/patch2.diff", "demo/run.sh demo2.c", ["C28"],
     "EVHTTP_URI_HOST_STRIP_BRACKETS with an IPvFuture literal host"),
+ "C14-add-fills-room-before-alloc": ("C14", "/tmp/adv_C14", "demo/patch.diff", "demo/run.sh", ["C14"],
+    "evbuffer_add where the last chain has 0 < free room < datlen and exactly the new-chain allocation fails"),
+ "C14-file-segment-early-ref-leak": ("C14", "/tmp/adv_C14", "demo/patch2.diff", "demo/run.sh", ["C14", "C15"],
+    "chain allocation inside evbuffer_add_file_segment fails (or another late error exit): segment reference leaked, cleanup never runs"),
+ "C37-tcp-length-prefix-one-byte": ("C37", "/tmp/adv_C37", "demo/patch.diff", "demo/run.sh", ["C37"],
+    "two pipelined TCP queries with a read ending between the two bytes of the second length prefix"),
+ "C21-refill-guard-le": ("C21", "/tmp/adv_C21", "demo/patch.diff", "demo/run.sh", ["C21"],
+    "single refill spanning >= 2 ticks with floor((burst-level)/n) == rate and a non-zero remainder"),
+ "C21-signed-headroom": ("C21", "/tmp/adv_C21", "demo/patch2.diff", "demo/run.sh demo2.c", ["C21"],
+    "deficit level combined with burst = EV_RATE_LIMIT_MAX (burst - level > INT64_MAX)"),
+ "C25-folded-lines-not-counted": ("C25", "/tmp/adv_C25", "demo/patch.diff", "demo/run.sh", ["C25"],
+    "finite max_headers_size and a header section whose bulk is many short folded continuation lines"),
+ "C25-chunk-limit-per-chunk-only": ("C25", "/tmp/adv_C25", "demo/patch2.diff", "demo/run.sh", ["C25"],
+    "chunked body with every chunk <= limit, sum above it, and the limit-crossing chunk through the final 0 chunk arriving in one read"),
+ "C27-retry-count-reset-moved": ("C27", "/tmp/adv_C27", "demo/patch.diff", "demo/run.sh demo", ["C27"],
+    "retries enabled, first connect refused, retry connects, the request then fails at network level, then a new request on the same connection"),
+ "C27-autofree-without-recheck": ("C27", "/tmp/adv_C27", "demo/patch2.diff", "demo/run.sh demo2", ["C27"],
+    "evhttp_connection_free_on_completion, response with Connection: close, completion callback issues a follow-up request on the same connection"),
+ "C15-multicast-buffer-len-off": ("C15", "/tmp/adv_C15", "demo/patch.diff", "demo/run.sh", ["C15", "C12"],
+    "add_buffer_reference of a source chain with misalign > off, more data after the referencing chain, pullup spanning past it"),
+ "C15-multicast-single-incref": ("C15", "/tmp/adv_C15", "demo/patch2.diff", "demo/run2.sh", ["C15"],
+    "source with >= 2 non-empty chains at add_buffer_reference time, destination drained/freed before the source"),
+ "C38-cache-ttl-max": ("C38", "/tmp/adv_C38", "demo/patch.diff", "demo/run.sh demo", ["C38"],
+    "PF_UNSPEC, one family answers first, the other NODATA with an SOA whose ttl exceeds the positive TTL; second lookup between the two TTLs"),
+ "C38-cache-hit-keeps-first-port": ("C38", "/tmp/adv_C38", "demo/patch2.diff", "demo/run.sh demo2", ["C38"],
+    "second lookup of the same name within its TTL with a different service"),
+ "C34-getaddrinfo-callback-twice": ("C34", "/tmp/adv_C34", "demo/patch.diff", "demo/run.sh", ["C34", "C38"],
+    "PF_UNSPEC getaddrinfo, one family answered first, the other family's reply read in the same loop iteration in which the skew timer expires"),
+ "C34-base-free-order-skips-promoted": ("C34", "/tmp/adv_C34", "demo/patch2.diff", "demo/run2.sh", ["C34"],
+    "evdns_base_free(base,1) with more requests outstanding than max-inflight (>5) allows"),
  "C45-prepare-timeout-recomputed": ("C45", "/tmp/adv_C45", "demo/patch2.diff", "demo/run.sh", ["C45"],
     "a prepare watcher that adds/removes a timer or activates an event"),
 }
